@@ -441,6 +441,7 @@ func (eng *Engine) ProveLemma(pkg *packages.Package, cs *ContractSet, lm *Lemma)
 	for _, r := range lm.Requires {
 		fc.assume(st, env.evalBool(r.E))
 	}
+	fc.autoLemmasExcept(st, lm.Name)
 	for _, u := range lm.Uses {
 		fc.useLemmaEnv(st, u, env)
 	}
@@ -510,10 +511,23 @@ func (fc *FnCtx) useLemmaEnv(st *State, u *Clause, env *SpecEnv) {
 
 // autoLemmas: lemmas marked `auto` (each proved as its own obligation) are assumed as quantified
 // axioms, emitted only into queries that mention the lemma's key function.
-func (fc *FnCtx) autoLemmas(st *State) {
-	for _, cs := range []*ContractSet{fc.cs, fc.eng.externs} {
+func (fc *FnCtx) autoLemmas(st *State) { fc.autoLemmasExcept(st, "") }
+
+// autoLemmasExcept: in the proof of lemma `except` only auto lemmas declared BEFORE it are available
+// (no circular reasoning).
+func (fc *FnCtx) autoLemmasExcept(st *State, except string) {
+	sets := []*ContractSet{fc.cs, fc.eng.externs}
+	for _, imp := range fc.pkg.Types.Imports() {
+		if cs := fc.eng.contractsForPkg(imp); cs != nil && cs != fc.cs {
+			sets = append(sets, cs)
+		}
+	}
+	for _, cs := range sets {
 		for _, ln := range cs.LemmaOrd {
 			lm := cs.Lemmas[ln]
+			if except != "" && cs == fc.cs && ln == except {
+				break
+			}
 			if lm.Auto == "" {
 				continue
 			}
